@@ -16,6 +16,10 @@
     regex_flags_documented scan_new_lossless scan_old_lossless scan_new_print_roundtrip
     text_reaches_stream_escaped text_reaches_stream_escaped_old text_reaches_output_verbatim
     expression_boundaries_text_template scan_old_line_roundtrip_partial
+    tokenize_print_roundtrip reader_inverts_layout interpolate_any_number_of_pieces
+    raw_print_roundtrip_tokens raw_print_roundtrip source_text_eq_doc raw_loop_commutes
+    scan_old_print_roundtrip raw_print_roundtrip_tokens_old raw_print_roundtrip_old source_text_eq_doc_old
+    scan_delims_default scan_delims_lossless scan_delims_print_roundtrip_partial
 -/
 import Genshi.Lemmas.TmplSimMain
 import Genshi.Lemmas.TmplSimRev
@@ -27,6 +31,11 @@ import Genshi.Lemmas.TmplExtract
 import Genshi.Lemmas.TmplText
 import Genshi.Lemmas.TmplScanText
 import Genshi.Lemmas.TmplScanOld
+import Genshi.Lemmas.TmplInv
+import Genshi.Lemmas.TmplInvOld
+import Genshi.Lemmas.TmplScanD
+import Genshi.Lemmas.TmplScanDPrint
+import Genshi.Lemmas.TmplRawLoop
 namespace Genshi.Props.C04
 open Genshi Genshi.Tmpl
 
@@ -538,8 +547,8 @@ example : (∀ d ∈ exPre, d.ctl = true) ∧ StrictSorted (exPre ++ [.attrs (.v
   refine ⟨by decide, ?_, ?_, ?_, ?_, ?_⟩ <;> simp [StrictSorted, exPre, Dir.rank]
 
 /-- … also with a `py:def` among the nested directives (`attr_form_eq_elem_form`) -/
-example : (∀ d ∈ Dir.def_ ['f'] [['p']] :: exPre, d.ctlDef = true) ∧
-    StrictSorted ((Dir.def_ ['f'] [['p']] :: exPre) ++ [.attrs (.var ['w']), .strip none]) ∧
+example : (∀ d ∈ Dir.def_ ['f'] [(['p'], some (.lit (.atom (.int 1))))] :: exPre, d.ctlDef = true) ∧
+    StrictSorted ((Dir.def_ ['f'] [(['p'], some (.lit (.atom (.int 1))))] :: exPre) ++ [.attrs (.var ['w']), .strip none]) ∧
     StRel exSt0 exSt0 := by
   refine ⟨by decide, ?_, StRel.refl _⟩
   simp [StrictSorted, exPre, Dir.rank]
@@ -696,5 +705,197 @@ example : Genshi.Py.Lex.Scannable cs!"x" ∧ plainNew cs!"a ${x}!" = true ∧ Ge
 example : parseNew cs!"a ${x}!" = .ok [.text cs!"a ", .expr cs!"x", .text cs!"!"] := by rfl
 
 end Scanners
+
+/-! ### the reader of text templates inverts the printer (`Model/TmplPrint.lean`, `Model/TmplRaw.lean`) -/
+
+section Inversion
+open Genshi.Tmpl.Print Genshi.Tmpl.Raw Genshi.Tmpl.Scan
+
+/-- **The tokenizer inverts the token printer**, for every list of tokens the tokenizer can produce
+    (identifiers, numbers, string literals without quote / backslash / line feed, the symbols, `==`):
+    written with a blank where the documented layout has one or where two tokens would run together
+    (`sep`), the list is tokenized to itself. -/
+theorem tokenize_print_roundtrip (ts : List MTok) (h : ts.all tokOk = true) : tokenize (toksSrc ts) = some ts :=
+  tokenize_print ts h
+
+example : toksSrc [.sym '(', .name cs!"x", .eqeq, .sym '(', .sym '-', .int 12, .sym ')', .sym ')'] = cs!"(x == (-12))" := by
+  decide
+
+/-- **The reader inverts the layout of the mini language**: expressions (names, None/True/False,
+    integers, strings, list and dict literals, `==`, `not`, `len`, indexing — nested in any way),
+    `${…}` sources (an expression or a macro call with positional and keyword arguments) and the value
+    of every text-template directive (`def` with parameters and defaults, `for`, `if`, `when`, `choose`,
+    `otherwise`, `with`) are read back from their printed source, under either lookup mode. -/
+theorem reader_inverts_layout (st : Bool) :
+    (∀ e, exprOk st e = true → readExpr st (exprSrc e) = some e) ∧
+    (∀ x, xexprOk st x = true → readXExpr st (xexprSrc x) = some x) ∧
+    (∀ d, dirOk st d = true → readDir st d.name (dirSrc d) = some d) := by
+  refine ⟨?_, readXExpr_print st, readDir_print st⟩
+  intro e h
+  unfold readExpr exprSrc
+  have ht : tokenize (toksSrc (exprToks e)) = some (exprToks e) := tokenize_print _ (xexprToks_ok st (.pure e) h)
+  rw [ht]
+  exact readExprToks_print st e h
+
+/-- **`interpolate` on any number of pieces** (generalises `expression_boundaries_text_template`):
+    a run of non-empty `$`-free texts (never two in a row) and `${…}` expressions with scannable,
+    non-empty sources is cut into exactly these pieces. -/
+theorem interpolate_any_number_of_pieces (ps : List (Bool × List Char)) (h : SegOK ps)
+    (hm : Genshi.Py.Lex.unmodelled (segSrc ps) = false) : interpolate (segSrc ps) = .ok (ps.map pieceEv) :=
+  interpolate_seg ps h hm
+
+/-- **Inversion of the text-template reader, on token lists.**  Every list of template tokens
+    (texts without backslash / `$` / `{`, never two in a row; `${…}`; `{% directive %}`; `{% end %}` —
+    balanced or not) that satisfies the decidable side condition `ttoksOk`, printed in the new text
+    syntax, is read back — scanner, `_escape_re`, `interpolate` over `lex`, tokenizer, reader of
+    expressions and directive values — to exactly the list it was printed from.  (`hm`: the printed
+    text is inside the domain of the C03 lexer model: ASCII, no triple quotes.) -/
+theorem raw_print_roundtrip_tokens (st : Bool) (ts : List TTok) (h : ttoksOk st ts = true)
+    (hm : Genshi.Py.Lex.unmodelled (ttoksNew ts) = false) : rawToks false st (ttoksNew ts) = .ok ts :=
+  rawToks_print_flat st ts h hm
+
+/-- **Inversion of the text-template reader.**  For every text-template AST satisfying the
+    decidable side condition `nodesOk` (maximal non-empty texts without backslash / `$` / `{`;
+    identifiers that are not words of the mini language; string literals without quote, backslash,
+    line feed, `%`, `#`; directives of the text languages; `with` with at least one binding; parameters
+    with defaults last, keyword arguments last): the source text printed from the AST is read back to
+    the token form of the AST — `rawToks (print ns) = toTokss ns`. -/
+theorem raw_print_roundtrip (st : Bool) (ns : List TNode) (h : nodesOk st ns = true)
+    (hm : Genshi.Py.Lex.unmodelled (nodesNew ns) = false) : rawToks false st (nodesNew ns) = .ok (toTokss ns) :=
+  rawToks_print st ns h hm
+
+/-- **`impl_eq_doc` as a statement about template source text.**  For every such AST and all data:
+    the documentation semantics defines the output `o` of the AST iff the template *source*, read
+    and compiled from its characters (`renderRaw`: scanner, escapes, `lex`/`interpolate`, reader,
+    token loop, `_prepare`, `_flatten` with the directive chain), renders exactly `o`:
+    `render (parse (print ast)) = doc ast`. -/
+theorem source_text_eq_doc (st : Bool) (ns : List TNode) (data : Env) (o : List Event)
+    (h : nodesOk st ns = true) (hm : Genshi.Py.Lex.unmodelled (nodesNew ns) = false) :
+    (∃ n, docRender n ns data = .ok o) ↔ (∃ m, renderRaw m false st (nodesNew ns) data = .ok (.ok o)) := by
+  rw [impl_eq_doc ns data o (nodesOk_text st ns h).2]
+  simp only [renderRaw_print st ns h hm, Except.ok.injEq]
+
+/-- **The raw token loop commutes with reading.**  Whenever a source can be read into tokens, the
+    stream `NewTextTemplate._parse` builds from the raw (command, value) pairs (`parseNew`: depth
+    counter, `dirmap`, SUB events carrying command and value *strings*), read event by event, is the
+    stream `textParse` builds from the read tokens — the loop all run-time theorems are about. -/
+theorem raw_loop_commutes (st : Bool) (src : List Char) (toks : List TTok)
+    (h : rawToks false st src = .ok toks) :
+    ∃ evs, parseNew src = .ok evs ∧ ReadEvs st evs (textParse toks) :=
+  parseNew_commutes st src toks h
+
+/-- a template with a loop, a macro with a default, calls by position and by keyword (None) -/
+private def exInv : List TNode :=
+  [.text cs!"a 50% ",
+   .delem (.def_ cs!"f" [(cs!"x", none), (cs!"p", some (.lit (.atom (.str cs!"Z"))))])
+     [.expr (.pure (.var cs!"x")), .text cs!".", .expr (.pure (.eq (.var cs!"p") (.lit (.atom .none))))],
+   .delem (.for_ cs!"it" (.lit (.list [.int 1, .int (-2)])))
+     [.expr (.call (.var cs!"f") [(none, .ix (.var cs!"d") (.lit (.atom (.str cs!"k")))), (some cs!"p", .lit (.atom .none))]),
+      .text cs!", "],
+   .expr (.pure (.len (.lit (.dict [(cs!"k", .bool true)]))))]
+
+example : nodesNew exInv =
+    cs!"a 50% {% def f(x, p='Z') %}${x}.${(p == None)}{% end %}{% for it in [1, (-2)] %}${f(d['k'], p=None)}, {% end %}${len({'k': True})}" := by
+  decide
+
+example : nodesOk false exInv = true ∧ Genshi.Py.Lex.unmodelled (nodesNew exInv) = false := by decide
+
+example : rawToks false false (nodesNew exInv) = .ok (toTokss exInv) :=
+  raw_print_roundtrip false exInv (by decide) (by decide)
+
+/-! #### the old text syntax -/
+
+/-- **Printer round trip (old syntax)** — the full statement `scan_old_line_roundtrip_partial` left open.
+    Every well-formed old-syntax token list (non-empty maximal texts; directive / comment lines
+    `[blanks]#body` whose body starts with a word character or `#` and holds no line feed; a text in
+    front of a line ends with a line feed), printed with `\#` for every `#` of a text, is scanned to
+    itself: `(scanOld (printOld ts)).map cookOld = ts`. -/
+theorem scan_old_print_roundtrip (ts : List OCTok) (wf : WFOld ts) : (scanOld (printOld ts)).map cookOld = ts :=
+  Genshi.Tmpl.Scan.scan_old_print_roundtrip ts wf
+
+example : printOld [.text cs!"a#b\n", .line cs!" \t" cs!"if x", .line [] cs!"# note", .text cs!"z "] =
+    cs!"a\\#b\n \t#if x\n## note\nz " := by decide
+
+/-- **Inversion of the reader, old syntax, on token lists**: under `ttoksOkOld` (= `ttoksOk`, no `#`
+    in texts, and the line discipline `lineStarts`: a directive line starts the template or follows a
+    directive line or a text that ends with a line feed). -/
+theorem raw_print_roundtrip_tokens_old (st : Bool) (ts : List TTok) (h : ttoksOkOld st ts = true)
+    (hm : Genshi.Py.Lex.unmodelled (ttoksOld ts) = false) : rawToks true st (ttoksOld ts) = .ok ts :=
+  rawToks_print_flat_old st ts h hm
+
+/-- **Inversion of the reader, old syntax**: `rawToks (print ns) = toTokss ns` for every text-template
+    AST with `nodesOkOld` (the scanner with `^` at line starts, `\#`, `lstrip()[1:].split(None, 1)`, the
+    value keeping its line feed, tokenizer, reader). -/
+theorem raw_print_roundtrip_old (st : Bool) (ns : List TNode) (h : nodesOkOld st ns = true)
+    (hm : Genshi.Py.Lex.unmodelled (nodesOld ns) = false) : rawToks true st (nodesOld ns) = .ok (toTokss ns) :=
+  rawToks_print_old st ns h hm
+
+/-- `impl_eq_doc` about the source text of an old-syntax template. -/
+theorem source_text_eq_doc_old (st : Bool) (ns : List TNode) (data : Env) (o : List Event)
+    (h : nodesOkOld st ns = true) (hm : Genshi.Py.Lex.unmodelled (nodesOld ns) = false) :
+    (∃ n, docRender n ns data = .ok o) ↔ (∃ m, renderRaw m true st (nodesOld ns) data = .ok (.ok o)) := by
+  have h0 : nodesOk st ns = true := by simp only [nodesOkOld, Bool.and_eq_true] at h; exact h.1.1
+  rw [impl_eq_doc ns data o (nodesOk_text st ns h0).2]
+  simp only [renderRaw_print_old st ns h hm, Except.ok.injEq]
+
+private def exInvOld : List TNode :=
+  [.text cs!"a 50%\n",
+   .delem (.def_ cs!"f" [(cs!"x", none), (cs!"p", some (.lit (.atom (.str cs!"Z"))))])
+     [.expr (.pure (.var cs!"x")), .text cs!".\n"],
+   .delem (.choose none) [.delem (.when (some (.var cs!"w"))) [.text cs!"b\n"], .delem .otherwise []],
+   .expr (.call (.var cs!"f") [(none, .lit (.atom (.int 1))), (some cs!"p", .lit (.atom .none))])]
+
+example : nodesOld exInvOld =
+    cs!"a 50%\n#def f(x, p='Z')\n${x}.\n#end\n#choose\n#when w\nb\n#end\n#otherwise\n#end\n#end\n${f(1, p=None)}" := by
+  decide
+
+example : nodesOkOld false exInvOld = true ∧ Genshi.Py.Lex.unmodelled (nodesOld exInvOld) = false := by decide
+
+example : rawToks true false (nodesOld exInvOld) = .ok (toTokss exInvOld) :=
+  raw_print_roundtrip_old false exInvOld (by decide) (by decide)
+
+end Inversion
+
+/-! ### custom delimiters of `NewTextTemplate` (`Model/TmplScanD.lean`) -/
+
+section Delimiters
+open Genshi.Tmpl.Scan Genshi.Tmpl.ScanD
+
+/-- At the default delimiters the scanner and the unescape parameterised by the four delimiter
+    strings ARE the ones every other theorem is about. -/
+theorem scan_delims_default (s : List Char) : scanD dflt s = scanNew s ∧ unescapeD dflt s = unescapeNew s :=
+  ⟨scanD_default s, unescapeD_default s⟩
+
+/-- **Losslessness for all delimiters** inside the side condition `Delims.ok` (indeed whenever the two
+    comment delimiters are not both empty: `scanD_lossless`; with both empty it is false:
+    `scanD_lossless_needs_hyp`): the source texts of the tokens concatenate to the input. -/
+theorem scan_delims_lossless (d : Delims) (h : d.ok = true) (s : List Char) : (scanD d s).flatMap (srcD d) = s :=
+  scanD_lossless_of_ok d h s
+
+/-- **Printed constructs are scanned as themselves, for all delimiter choices** with `Delims.ok`
+    (non-empty delimiters; the directive end starts with a character that is neither `\w` nor `\s`).
+    Full statement (open): `(scanD d (printD d ts)).map (cookD d) = ts` for every well-formed token list
+    (needs in addition that no end delimiter ends in a backslash, and the text case with `escapeD`).
+    Proved here, whatever surrounds them: (1) a printed directive `SD cmd value ED` whose value does not
+    hold the end delimiter early (`OkDirD`) at a position not behind a backslash is exactly one token
+    with that command and value, and scanning resumes behind it; (2) the same for a printed comment
+    when the comment start is not also a directive start. -/
+theorem scan_delims_print_roundtrip_partial (d : Delims) (hd : d.ok = true) :
+    (∀ (cmd val : List Char), OkDirD d cmd val → ∀ (p : Char), p ≠ '\\' → ∀ (acc rest : List Char),
+      scanDGo d 0 p acc (printDTok d (.dir cmd val) ++ rest) =
+        flushText acc ++ RTok.dir (dirInner cmd val) cmd val ::
+          scanDGo d 0 (lastCh p (printDTok d (.dir cmd val))) [] rest) ∧
+    (∀ (b : List Char), NoOcc d.ec b → (∀ y, dropPrefix? d.sd (d.sc ++ y) = none) → ∀ (p : Char), p ≠ '\\' →
+      ∀ (acc rest : List Char),
+      scanDGo d 0 p acc (printDTok d (.comment b) ++ rest) =
+        flushText acc ++ RTok.comment b :: scanDGo d 0 (lastCh p (printDTok d (.comment b))) [] rest) :=
+  ⟨fun _ _ ok p hp acc rest => scanDGo_printed_dir d hd ok p hp acc rest,
+   fun _ h hsep p hp acc rest => scanDGo_printed_comment' d hd h hsep p hp acc rest⟩
+
+example : (⟨cs!"<<", cs!">>", cs!"<#", cs!"#>"⟩ : Delims).ok = true := by decide +kernel
+example : scanD ⟨cs!"<<", cs!">>", cs!"<#", cs!"#>"⟩ cs!"a<< if x >>b<# c #>" =
+    [.text cs!"a", .dir cs!" if x " cs!"if" cs!"x", .text cs!"b", .comment cs!" c "] := by decide +kernel
+
+end Delimiters
 
 end Genshi.Props.C04
